@@ -1,6 +1,7 @@
 import BoxoModel.C16.Lemmas
 import BoxoModel.C16.DirLemmas
 import BoxoModel.C16.RuleLemmas
+import BoxoModel.C16.GateLemmas
 /-!
 # C16 — Directory root CID depends only on final entries and configuration
 
@@ -145,6 +146,17 @@ theorem c16_fresh_exact (g : Globals) (s : Settings) (b : Basic) (hn : Basic.new
     · have : ¬ b0.s.effMode g = 1 := by rw [h2]; decide
       simp [h2, this]
     · simp [h2]
+
+/-- **`sizeBelowThreshold` does not depend on the enumeration order**: its loop over `EnumLinksAsync` (parallel
+walk, delivery order not determined) with the early exit `partialSize + sizeChange > threshold` answers,
+for EVERY delivery order (any permutation of the entries), what the model's order-free `Hamt.sizeBelow`
+states: no link at all, or total size + delta within the threshold. -/
+theorem c16_size_below_order_independent (g : Globals) (hd : Hamt) (op : Int) (order : List (Name × Lnk))
+    (hp : order.Perm hd.shard.ents) :
+    sizeBelowLoop (hd.s.effThr g) op
+        (if hd.s.effMode g = 1 then ((dataFieldSize hd.s.stat : Nat) : Int) else 0)
+        (order.map fun e => hd.linkSizeFor g (nameLen e.1) e.2) = hd.sizeBelow g op :=
+  sizeBelow_order_independent g hd op order hp
 
 /-! Non-vacuity: the collapse on removal makes "insert a, b, c; remove c" equal to "insert b, a". -/
 section examples
